@@ -1,5 +1,8 @@
 import Secp.Spec.Ecdsa
 import Secp.Model.Der
+import Secp.Model.PrivKey
+import Secp.Gen.FieldIR
+import Secp.Gen.ScalarIR
 /-
   Driver — line protocol.  One operation per input line (`op arg…`, byte strings
   in hex, "-" for the empty string, numbers in decimal); one answer per line:
@@ -31,6 +34,60 @@ def opDerSerialize (args : List String) : String :=
   | [some r, some s] => toHex (serializeDER (scalarSetByteSlice r).1 (scalarSetByteSlice s).1) ++ "\t="
   | _ => "bad-args"
 
+def allKernels : List Secp.IR.Kernel := Secp.Gen.fieldKernels ++ Secp.Gen.scalarKernels
+
+/-- kernel name in the generated files = the Lean identifier; look up by `name` field mapping -/
+def kernelTable : List (String × Secp.IR.Kernel) := [
+  ("Field_Zero", Secp.Gen.Field_Zero), ("Field_Set", Secp.Gen.Field_Set), ("Field_SetInt", Secp.Gen.Field_SetInt),
+  ("Field_SetBytes", Secp.Gen.Field_SetBytes), ("Field_Normalize", Secp.Gen.Field_Normalize),
+  ("Field_PutBytesUnchecked", Secp.Gen.Field_PutBytesUnchecked), ("Field_IsZeroBit", Secp.Gen.Field_IsZeroBit),
+  ("Field_IsZero", Secp.Gen.Field_IsZero), ("Field_IsOneBit", Secp.Gen.Field_IsOneBit), ("Field_IsOne", Secp.Gen.Field_IsOne),
+  ("Field_IsOddBit", Secp.Gen.Field_IsOddBit), ("Field_IsOdd", Secp.Gen.Field_IsOdd), ("Field_Equals", Secp.Gen.Field_Equals),
+  ("Field_NegateVal", Secp.Gen.Field_NegateVal), ("Field_AddInt", Secp.Gen.Field_AddInt), ("Field_Add", Secp.Gen.Field_Add),
+  ("Field_Add2", Secp.Gen.Field_Add2), ("Field_MulInt", Secp.Gen.Field_MulInt), ("Field_Mul2", Secp.Gen.Field_Mul2),
+  ("Field_SquareVal", Secp.Gen.Field_SquareVal), ("Field_IsGtOrEqPrimeMinusOrder", Secp.Gen.Field_IsGtOrEqPrimeMinusOrder),
+  ("CT_Eq_lit", Secp.Gen.CT_Eq_lit), ("CT_NotEq_lit", Secp.Gen.CT_NotEq_lit), ("CT_Less_lit", Secp.Gen.CT_Less_lit),
+  ("CT_LessOrEq_lit", Secp.Gen.CT_LessOrEq_lit), ("CT_Greater_lit", Secp.Gen.CT_Greater_lit),
+  ("CT_GreaterOrEq_lit", Secp.Gen.CT_GreaterOrEq_lit), ("CT_Min_lit", Secp.Gen.CT_Min_lit),
+  ("Acc96_Add_lit", Secp.Gen.Acc96_Add_lit), ("Acc96_Rsh32_lit", Secp.Gen.Acc96_Rsh32_lit),
+  ("Scalar_Zero", Secp.Gen.Scalar_Zero), ("Scalar_SetInt", Secp.Gen.Scalar_SetInt), ("Scalar_IsZeroBit", Secp.Gen.Scalar_IsZeroBit),
+  ("Scalar_IsZero", Secp.Gen.Scalar_IsZero), ("Scalar_overflows", Secp.Gen.Scalar_overflows),
+  ("Scalar_reduce256", Secp.Gen.Scalar_reduce256), ("Scalar_SetBytes", Secp.Gen.Scalar_SetBytes),
+  ("Scalar_PutBytesUnchecked", Secp.Gen.Scalar_PutBytesUnchecked), ("Scalar_IsOdd", Secp.Gen.Scalar_IsOdd),
+  ("Scalar_Equals", Secp.Gen.Scalar_Equals), ("Scalar_Add2", Secp.Gen.Scalar_Add2), ("Scalar_reduce385", Secp.Gen.Scalar_reduce385),
+  ("Scalar_reduce512", Secp.Gen.Scalar_reduce512), ("Scalar_Mul2", Secp.Gen.Scalar_Mul2), ("Scalar_NegateVal", Secp.Gen.Scalar_NegateVal),
+  ("Scalar_IsOverHalfOrder", Secp.Gen.Scalar_IsOverHalfOrder)]
+
+def opKern (args : List String) : String :=
+  match args with
+  | name :: rest =>
+    match kernelTable.lookup name with
+    | none => "no-such-kernel"
+    | some k =>
+      let ins := rest.map String.toNat!
+      " ".intercalate ((k.runW ins).map toString) ++ "\t="
+  | _ => "bad-args"
+
+def ioErrName : IoErr → String
+  | .eof => "eof" | .unexpectedEOF => "unexpectedEOF" | .other n => "other" ++ toString n
+
+def opKeygen (args : List String) : String :=
+  match args with
+  | [d, term, _chunks, _ewd] =>
+    match ofHex d with
+    | some data =>
+      let t := if term == "eof" then IoErr.eof else IoErr.other 7
+      match generatePrivateKey ⟨data, t⟩ with
+      | (.ok k, used) => "ok " ++ natHex32 k ++ " used=" ++ toString used ++ "\t="
+      | (.error e, used) => "err " ++ ioErrName e ++ " used=" ++ toString used ++ "\t="
+    | none => "bad-hex"
+  | _ => "bad-args"
+
+def opPrivFromBytes (args : List String) : String :=
+  match args.map ofHex with
+  | [some b] => toHex (privKeySerialize (privKeyFromBytes b)) ++ "\t" ++ toHex (be32 (beNat (b.take 32) % N))
+  | _ => "bad-args"
+
 def runOp (line : String) : String :=
   match (line.splitOn " ").filter (· ≠ "") with
   | [] => "empty"
@@ -38,6 +95,9 @@ def runOp (line : String) : String :=
     match op with
     | "der_parse" => opDerParse args
     | "der_serialize" => opDerSerialize args
+    | "kern" => opKern args
+    | "keygen" => opKeygen args
+    | "privkey_frombytes" => opPrivFromBytes args
     | _ => "unknown-op " ++ op
 
 partial def loop (hin : IO.FS.Stream) (hout : IO.FS.Stream) : IO Unit := do
